@@ -113,6 +113,17 @@ def bounds(tier):
                              + "; nucleotides {A,DA}^2..4 both sides; two-chain peptides ({A,G,S}^2)^2; two-chain "
                                "sub-structure copies: (permutations of A,G,S)^2 x each mobile chain {full, first residue "
                                "dropped, last residue dropped}",
+        "audit_families": {
+            "flavour": "6 sets (one per rank class + helix6, generic7) x 9 fixed x 12 mobile x 6 mask flavours",
+            "reuse": "6 sets x 5 containers: repeated apply/as_matrix, aliasing, refused calls, repeated calls",
+            "boundary": "superimpose_without_outliers: all 1-/2-point sets + listed sets x min_anchors {n-1,n,n+1} x "
+                        "max_iterations {1,2,3}",
+            "singleton": "superimpose_homologs: peptides of length 1..2 both sides x min_anchors {1,2} x 2 geometries",
+            "perm": "all atom orders of all 3-point sets; 3 re-orderings of the listed sets; all displacements; 2 motions",
+            "swap": "roles exchanged for all 2-/3-point sets + listed sets",
+            "mirror": "all 2..4-point sets + listed sets x the 24 improper cube symmetries (exact; with noise n != 4)",
+            "many": "cubes {0..k-1}^3, k=3,4,5,10: 72 exact motions; first/middle/last atom displaced; 3 masks",
+        },
         "tolerances": {"coord_rel": 1e-5, "orthonormal": 1e-5, "perturbation": [0.02, 0.02]},
     }
 
@@ -481,6 +492,9 @@ def run_shape_case(ctx, desc, focus=None):
         fitted, tr = struc.superimpose(fobj, mobj, **kw)
     except Exception as e:  # noqa: BLE001
         ctx.outcome(("shape-exc", fc, mc, type(e).__name__))
+        if not np.array_equal(coords_of(fobj), fkeep) or not np.array_equal(coords_of(mobj), mkeep):
+            ctx.violation("superimpose|input_mutated_by_refused_call|" + cls, "a call that raised modified its arguments",
+                          case)
         if exp == "accept":
             ctx.violation("superimpose|raises_%s|%s" % (type(e).__name__, cls.rsplit("/", 1)[0]),
                           "documented container combination raised: %s" % e, case,
@@ -613,6 +627,9 @@ def run_outlier_batch(ctx, desc, focus=None):
                 F.copy(), mobile.astype(np.float32), min_anchors=ma, max_iterations=mi, quantiles=q,
                 outlier_threshold=thr)
         except Exception as e:  # noqa: BLE001
+            if ma > n:
+                ctx.count("unspecified")  # more anchors demanded than atoms exist: the documentation is silent
+                continue
             ctx.violation("superimpose_without_outliers|raises_%s|%s" % (type(e).__name__, cls0),
                           "legal input raised: %s" % e, ccase, observed=repr(e)[:300])
             continue
@@ -821,10 +838,14 @@ def run_homolog_case(ctx, case):
     ctx.count({"accept": "accepted", "either": "unspecified", "refuse": "refused"}[exp])
     ctx.count("ev_homolog_%dchain" % len(fch))
     mkeep = mobile.coord.copy()
+    fkeep_h = fixed.coord.copy()
     try:
         res = struc.superimpose_homologs(fixed, mobile, **kw)
     except ValueError as e:
         ctx.outcome(("hom-exc", str(e)[:40]))
+        if not np.array_equal(mobile.coord, mkeep) or not np.array_equal(fixed.coord, fkeep_h):
+            ctx.violation("superimpose_homologs|input_mutated_by_refused_call|" + cls,
+                          "a call that raised modified its arguments", case)
         if exp == "accept":
             ctx.violation("superimpose_homologs|raises_ValueError|%s/equal_anchor_counts" % cls,
                           "structures with equal CA/P counts >= min_anchors were refused: %s" % e, case,
@@ -1024,8 +1045,9 @@ def shards(tier, seed):
     for c1 in perms:
         for c2 in perms:
             out.append({"kind": "homolog", "fam": "sub", "f": [c1, c2]})
+    out += [dict(x) for x in AUDIT_SHARDS]
     # heavy first
-    weight = {"fit": 0, "outlier": 1, "shape": 2, "homolog": 3}
+    weight = {"fit": 0, "outlier": 1, "shape": 2, "homolog": 3, "audit": 4}
     out.sort(key=lambda s: (weight[s["kind"]], 0 if s.get("size") in (4, 5) else 1))
     return out
 
@@ -1135,6 +1157,8 @@ def _run_shard(shard, ctx):
         for c in homolog_cases(shard, ctx.tier):
             if ctx.journal(json.dumps(c)):
                 run_homolog_case(ctx, c)
+    elif k == "audit":
+        run_audit_shard(shard, ctx)
     else:
         raise ValueError(shard)
 
@@ -1160,9 +1184,373 @@ def replay(case, ctx):
 
         ccd.install_ccd()
         run_homolog_case(ctx, case)
+    elif k == "audit" and case.get("fam") == "flavour":
+        run_flavour_case(ctx, case)
+    elif k == "audit" and case.get("fam") == "reuse":
+        run_reuse_case(ctx, case)
 
 
 def crash_class(case):
     if isinstance(case, dict):
         return "%s|%s" % (case.get("kind", "?"), case.get("mode") or case.get("fc") or case.get("fam") or "")
     return "unclassified"
+
+
+# ===========================================================================
+# dimension-audit families (array flavours, object reuse / aliasing / error paths, boundaries,
+# orientation / order, many atoms) - see notes/C16.md "Dimension audit"
+# ===========================================================================
+FLAV_FIXED = ["c64", "f32", "strided", "fortran", "tview", "readonly", "list", "int64", "int32"]
+FLAV_MOBILE = FLAV_FIXED + ["st2_strided", "st2_fortran", "st2_readonly"]
+FLAV_MASK = ["none", "bool", "bool_strided", "bool_readonly", "list", "index"]
+FLAV_EITHER = {"list", "int64", "int32", "index"}   # outside the documented parameter types
+
+
+def audit_sets():
+    """one lattice set per rank class + two listed sets."""
+    out = []
+    for size, want in ((1, "point"), (2, "collinear"), (3, "planar"), (4, "spatial")):
+        out.append(next(s for s in lattice_sets(size) if sp.rank_class(s) == want))
+    out.append([list(map(float, p)) for p in BIG_SETS["helix6"]])
+    out.append([list(map(float, p)) for p in BIG_SETS["generic7"]])
+    return out
+
+
+def flavour(kind, models):
+    """models: list of (k,3) float64 arrays; returns the object handed to biotite or None (not expressible)."""
+    a = models[0]
+    if kind == "c64":
+        return a.copy()
+    if kind == "f32":
+        return a.astype(np.float32)
+    if kind == "strided":
+        big = np.full((2 * len(a), 3), 77.0)
+        big[::2] = a
+        return big[::2]
+    if kind == "fortran":
+        return np.asfortranarray(a)
+    if kind == "tview":
+        return np.ascontiguousarray(a.T).T
+    if kind == "readonly":
+        r = a.copy()
+        r.flags.writeable = False
+        return r
+    if kind == "list":
+        return a.tolist()
+    if kind in ("int64", "int32"):
+        return a.astype(kind) if np.all(a == np.round(a)) else None
+    st = np.stack(models[:2])
+    if kind == "st2_strided":
+        big = np.full((4,) + st.shape[1:], 77.0)
+        big[::2] = st
+        return big[::2]
+    if kind == "st2_fortran":
+        return np.asfortranarray(st)
+    if kind == "st2_readonly":
+        st.flags.writeable = False
+        return st
+    raise ValueError(kind)
+
+
+def mask_flavour(kind, n):
+    base = np.array([True] * (n - 1) + [n == 1])
+    if kind == "none":
+        return None, None
+    if kind == "bool":
+        return base, base.copy()
+    if kind == "bool_strided":
+        big = np.zeros(2 * n, dtype=bool)
+        big[::2] = base
+        return base, big[::2]
+    if kind == "bool_readonly":
+        r = base.copy()
+        r.flags.writeable = False
+        return base, r
+    if kind == "list":
+        return base, base.tolist()
+    return base, np.where(base)[0]
+
+
+def flavour_models(F):
+    F = np.array(F, dtype=np.float64)
+    X = F.copy()
+    X[0, 1] += 1.0
+    return [F], [X @ sp.ROT24_F[3].T + np.array([-3.0, 7.0, 1.0]), F @ sp.ROT24_F[14].T + np.array([5.0, -2.0, -6.0])]
+
+
+def run_flavour_case(ctx, case):
+    import biotite.structure as struc
+
+    fk, mk, kk = case["ff"], case["mf"], case["kf"]
+    fm, mm = flavour_models(case["fixed"])
+    n = len(fm[0])
+    fobj, mobj = flavour(fk, fm), flavour(mk, mm)
+    if fobj is None or mobj is None:
+        return
+    depth = 2 if mk.startswith("st2") else 1
+    base, mobj_mask = mask_flavour(kk, n)
+    either = bool({fk, mk, kk} & FLAV_EITHER)
+    cls = "%s>%s/%s" % (fk, mk, kk)
+    ctx.ev(1, 1 if n >= 2 else 0)
+    ctx.count("unspecified" if either else "accepted")
+    ctx.count("ev_audit_flavour")
+    fkeep = np.array(fobj, dtype=np.float64).copy()
+    mkeep = np.array(mobj, dtype=np.float64).copy()
+    kkeep = None if mobj_mask is None else np.array(mobj_mask).copy()
+    try:
+        kw = {} if mobj_mask is None else {"atom_mask": mobj_mask}
+        fitted, tr = struc.superimpose(fobj, mobj, **kw)
+        m = depth
+        R, ct, tt, mat = extract(tr, m)
+        pm = [PROBE + 0.5, PROBE - 2.0]
+        pobj = flavour(mk, pm) if flavour(mk, pm) is not None else flavour("c64", pm)
+        pin = np.array(pobj, dtype=np.float64).reshape((-1, 5, 3))
+        pout = np.asarray(tr.apply(pobj), dtype=np.float64).reshape((-1, 5, 3))
+        rm = np.asarray(struc.rmsd(fobj, fitted), dtype=np.float64)
+    except Exception as e:  # noqa: BLE001
+        ctx.outcome(("flav-exc", cls, type(e).__name__))
+        if not either:
+            ctx.violation("superimpose|raises_%s|flavour/%s" % (type(e).__name__, cls),
+                          "float ndarray input in another memory layout raised: %s" % e, case, observed=repr(e)[:300])
+        return
+    if not np.array_equal(np.array(fobj, dtype=np.float64), fkeep) or not np.array_equal(
+            np.array(mobj, dtype=np.float64), mkeep) or (kkeep is not None and not np.array_equal(np.array(mobj_mask), kkeep)):
+        ctx.violation("superimpose|input_mutated|flavour/" + cls, "an argument was modified", case)
+    fit = np.asarray(fitted, dtype=np.float64)
+    want_shape = (2, n, 3) if depth == 2 else (n, 3)
+    if fit.shape != want_shape or pout.shape[0] != depth:
+        ctx.violation("superimpose|shape|flavour/" + cls, "fitted / applied coordinates have the wrong shape", case,
+                      expected=list(want_shape), observed=list(fit.shape))
+        return
+    fit = fit.reshape((-1, n, 3))
+    mob = np.stack(mm[:depth])
+    judge(ctx, "superimpose", "flavour/" + cls, case, fm[0], mob, base, fit, R, ct, tt, mat, pin, pout,
+          selfcheck=False)
+    want = sp.rmsd(fm[0], fit)
+    want = want if depth == 2 else want[0]
+    if rm.shape != np.shape(want) or np.any(np.abs(rm - want) > 1e-5 * (1 + np.max(np.abs(fit)))):
+        ctx.violation("rmsd|wrong_value|flavour/" + cls, "rmsd() differs from the float64 definition", case,
+                      expected=want, observed=rm)
+    ctx.outcome(("flav", cls, np.round(want, 3).tolist()))
+
+
+def flavour_cases():
+    for F in audit_sets():
+        for ff in FLAV_FIXED:
+            for mf in FLAV_MOBILE:
+                for kf in FLAV_MASK:
+                    yield {"kind": "audit", "fam": "flavour", "fixed": F, "ff": ff, "mf": mf, "kf": kf}
+
+
+# --- object reuse / aliasing / error paths -------------------------------------------------
+REUSE_CONT = ["nd64", "nd32", "aa", "ndst2", "aas2"]
+
+
+def _snap(tr):
+    return [np.array(x, copy=True) for x in (tr.center_translation, tr.rotation, tr.target_translation)]
+
+
+def _same(a, b):
+    return all(x.shape == y.shape and np.array_equal(x, y) for x, y in zip(a, b))
+
+
+def run_reuse_case(ctx, case):
+    import biotite.structure as struc
+    from biotite.structure import AffineTransformation
+
+    cont = case["cont"]
+    d = {"fixed": case["fixed"], "trans": TRANS_PALETTES[0], "mags": [0.25, 1.0], "var": "noisy"}
+    fmods, mmods = shape_models(d)
+    n = len(fmods[0])
+    depth = max(depth_of(cont), 1)
+    fkind = "aa" if cont.startswith("aa") else "nd64"
+    ctx.ev(1, 1 if n >= 2 else 0)
+    ctx.count("accepted")
+    ctx.count("ev_audit_reuse")
+
+    def bad(what, msg, **kw):
+        ctx.violation("reuse|%s|%s" % (what, cont), msg, case, **kw)
+
+    fobj, mobj = make_container(fkind, fmods), make_container(cont, mmods)
+    f1, t1 = struc.superimpose(fobj, mobj)
+    c1 = coords_of(f1).copy()
+    s1 = _snap(t1)
+    m1 = np.array(t1.as_matrix(), copy=True)
+    # aliasing of results with arguments / with each other
+    raw_f1 = f1 if isinstance(f1, np.ndarray) else f1.coord
+    raw_in = [x if isinstance(x, np.ndarray) else x.coord for x in (fobj, mobj)]
+    parts = [t1.center_translation, t1.rotation, t1.target_translation]
+    if any(np.shares_memory(raw_f1, x) for x in raw_in) or any(np.shares_memory(p, x) for p in parts for x in raw_in + [raw_f1]):
+        bad("result_aliases_argument", "fitted / transformation share memory with an argument or each other")
+    probe = np.stack([PROBE + k for k in range(depth)]).astype(np.float32)
+    probe1 = probe if depth > 1 else probe[0]
+    a1 = np.array(t1.apply(probe1), copy=True)
+    ma = t1.as_matrix()
+    a2 = np.array(t1.apply(probe1), copy=True)
+    t1.apply(np.concatenate([probe, probe], axis=1) if depth > 1 else np.concatenate([probe[0], probe[0]]))
+    try:
+        t1.apply(np.stack([PROBE] * (depth + 1)))
+        bad("no_error_wrong_depth", "apply() accepted a stack with another model count")
+    except Exception:  # noqa: BLE001
+        ctx.count("refused")
+    a3 = np.array(t1.apply(probe1), copy=True)
+    if not (np.array_equal(a1, a2) and np.array_equal(a1, a3)):
+        bad("apply_not_repeatable", "a second / third apply() (after as_matrix(), another shape and a refused call) "
+            "differs from the first", expected=a1, observed=a3)
+    if not _same(s1, _snap(t1)):
+        bad("transformation_changed_by_use", "apply()/as_matrix() changed the transformation's attributes")
+    ma[...] += 1.0  # a caller scribbling over the returned matrix
+    if not np.array_equal(np.asarray(t1.as_matrix()), m1):
+        bad("as_matrix_not_fresh", "as_matrix() differs after the array returned earlier was modified", expected=m1,
+            observed=np.asarray(t1.as_matrix()))
+    # mutate the mobile argument afterwards
+    raw_in[1][...] += 50.0
+    if not np.array_equal(coords_of(f1), c1) or not _same(s1, _snap(t1)):
+        bad("result_follows_argument", "modifying mobile after the call changed fitted / the transformation")
+    raw_f1[...] += 100.0
+    if not _same(s1, _snap(t1)) or not np.array_equal(np.array(t1.apply(probe1)), a1):
+        bad("transformation_follows_fitted", "modifying fitted changed the transformation")
+    # same call again from fresh arguments, another fit in between (module-level state)
+    o_f, o_m = shape_models({**d, "fixed": [[0, 0, 0], [2, 1, 0], [0, 1, 2], [1, 1, 1]]})
+    struc.superimpose(o_f[0], np.stack(o_m))
+    try:
+        struc.superimpose(np.stack(fmods[:2]), np.stack(mmods[:3]))
+    except Exception:  # noqa: BLE001
+        ctx.count("refused")
+    f2, t2 = struc.superimpose(make_container(fkind, fmods), make_container(cont, mmods))
+    if not np.array_equal(coords_of(f2), c1) or not _same(s1, _snap(t2)):
+        bad("second_call_differs", "the same call after other (valid and refused) calls gives another result",
+            expected=c1, observed=coords_of(f2))
+    # user-constructed transformation: arguments untouched; aliasing of arguments is existing behaviour
+    args = [x.copy() for x in s1]
+    keep = [x.copy() for x in args]
+    T = AffineTransformation(*args)
+    b1 = np.array(T.apply(probe1), copy=True)
+    if not _same(args, keep):
+        bad("constructor_modified_arguments", "AffineTransformation()/apply() modified the arrays it was given")
+    if not np.array_equal(b1, a1):
+        bad("constructed_differs", "AffineTransformation built from the returned attributes applies differently",
+            expected=a1, observed=b1)
+    args[1][...] = 0.0
+    if not np.array_equal(np.array(T.apply(probe1)), b1):
+        ctx.count("unspecified_constructor_keeps_reference_to_arguments")
+    # outlier variant: arguments untouched, repeatable, refusal leaves nothing behind
+    if cont in ("nd64", "ndst2"):
+        q = [0.75, 0.25]
+        Fo, Mo = fmods[0], (np.stack(mmods[:2]) if depth > 1 else mmods[0])
+        Mo_in = Mo.astype(np.float32)
+        r1 = struc.superimpose_without_outliers(Fo, Mo_in, min_anchors=1, quantiles=q)
+        if q != [0.75, 0.25] or not np.array_equal(Mo_in, Mo.astype(np.float32)):
+            bad("outlier_arguments_modified", "superimpose_without_outliers modified quantiles / mobile")
+        k1 = [np.array(r1[0], copy=True), _snap(r1[1]), np.array(r1[2], copy=True)]
+        r1[2][...] = 0
+        try:
+            struc.superimpose_without_outliers(Fo, Mo_in, max_iterations=0)
+        except ValueError:
+            ctx.count("refused")
+        r2 = struc.superimpose_without_outliers(Fo, Mo.astype(np.float32), min_anchors=1, quantiles=(0.75, 0.25))
+        if not (np.array_equal(r2[0], k1[0]) and _same(k1[1], _snap(r2[1])) and np.array_equal(r2[2], k1[2])):
+            bad("outlier_second_call_differs", "repeating the call (after a refused one) gives another result")
+    ctx.outcome(("reuse", cont, np.round(c1, 2).tolist()))
+
+
+def reuse_cases():
+    for F in audit_sets():
+        for cont in REUSE_CONT:
+            yield {"kind": "audit", "fam": "reuse", "fixed": F, "cont": cont}
+
+
+# --- boundaries: min_anchors around n, few iterations, one / two atoms, one residue -----------
+def boundary_descs(seed):
+    trans, mags = pal(seed)
+    trans = [list(map(float, t)) for t in trans]
+    for F in lattice_sets(1) + lattice_sets(2) + sets_of("big"):
+        n = len(F)
+        prm = [[ma, mi, 0] for ma in (n - 1, n, n + 1) for mi in (1, 2, 3)]
+        yield {"kind": "outlier", "fixed": F, "trans": trans, "mags": [mags[1]], "base_noise": [n - 1, 1, 0.375],
+               "rots": [], "motions": [[8, 2]], "params": prm, "stack": False}
+
+
+def singleton_cases():
+    seqs = [[a] for a in PEP] + [list(s) for s in itertools.product(PEP, repeat=2)]
+    for f in seqs:
+        for m in seqs:
+            for ma in (1, 2):
+                for geo in (0, 1):
+                    yield {"kind": "homolog", "f": [f], "m": [m], "geo": geo, "ma": ma, "mi": None}
+
+
+# --- orientation / order / many atoms: more fit batches ------------------------------------
+def _cube(k):
+    return [[float(x), float(y), float(z)] for x in range(k) for y in range(k) for z in range(k)]
+
+
+def audit_fit_descs(shard, seed):
+    trans, mags = pal(seed)
+    trans = [list(map(float, t)) for t in trans]
+    fam, part, parts = shard["fam"], shard.get("part", 0), shard.get("parts", 1)
+    base = {"kind": "fit", "trans": trans}
+    if fam == "perm":
+        jobs = []
+        for F in lattice_sets(3):
+            jobs += [[F[i] for i in p] for p in itertools.permutations(range(3)) if list(p) != [0, 1, 2]]
+        for F in sets_of("big"):
+            jobs += [F[::-1], F[1:] + F[:1], [F[1], F[0]] + F[2:]]
+        for i, F in enumerate(jobs):
+            if i % parts == part:
+                yield {**base, "fixed": F, "mode": "stack", "rots": [], "motions": [list(x) for x in M6[:2]],
+                       "mags": list(mags), "mask": None}
+    elif fam == "swap":
+        for i, F in enumerate(lattice_sets(2) + lattice_sets(3) + sets_of("big")):
+            if i % parts == part:
+                yield {**base, "fixed": F, "mode": "single", "rots": [], "motions": [list(M6[3])], "mags": [mags[1]],
+                       "mask": None, "swap": True}
+    elif fam == "mirror":
+        allsets = lattice_sets(2) + lattice_sets(3) + lattice_sets(4) + sets_of("big")
+        for i, F in enumerate(allsets):
+            if i % parts != part:
+                continue
+            yield {**base, "fixed": F, "mode": "stack", "rots": [], "motions": [[24 + g, 1] for g in range(24)],
+                   "mags": None, "mask": None}
+            if len(F) != 4:
+                yield {**base, "fixed": F, "mode": "stack", "rots": [], "motions": [[24, 1], [31, 1], [40, 1]],
+                       "mags": [mags[1]], "mask": None}
+    elif fam == "many":
+        for k in (3, 4, 5, 10):
+            F = _cube(k)
+            n = len(F)
+            yield {**base, "fixed": F, "mode": "stack", "rots": list(range(24)), "mags": None, "mask": None}
+            for mask in (None, [i % 2 == 0 for i in range(n)], [i < n // 2 for i in range(n)]):
+                yield {**base, "fixed": F, "mode": "stack", "rots": [], "motions": [list(x) for x in M6[:2]],
+                       "mags": [mags[1]], "noise_atoms": [0, n // 2, n - 1], "mask": mask}
+
+
+AUDIT_SHARDS = ([{"kind": "audit", "fam": "flavour", "part": p, "parts": 2} for p in range(2)]
+                + [{"kind": "audit", "fam": f} for f in ("reuse", "boundary", "singleton", "swap", "many")]
+                + [{"kind": "audit", "fam": "perm", "part": p, "parts": 2} for p in range(2)]
+                + [{"kind": "audit", "fam": "mirror", "part": p, "parts": 4} for p in range(4)])
+
+
+def run_audit_shard(shard, ctx):
+    fam = shard["fam"]
+    if fam == "flavour":
+        for i, c in enumerate(flavour_cases()):
+            if i % shard["parts"] == shard["part"] and ctx.journal(json.dumps(c)):
+                run_flavour_case(ctx, c)
+    elif fam == "reuse":
+        for c in reuse_cases():
+            if ctx.journal(json.dumps(c)):
+                run_reuse_case(ctx, c)
+    elif fam == "boundary":
+        for d in boundary_descs(ctx.seed):
+            run_outlier_batch(ctx, d)
+    elif fam == "singleton":
+        from mc import ccd
+
+        ccd.install_ccd()
+        for c in singleton_cases():
+            if ctx.journal(json.dumps(c)):
+                run_homolog_case(ctx, c)
+    else:
+        for d in audit_fit_descs(shard, ctx.seed):
+            run_fit_batch(ctx, d)
